@@ -2,12 +2,13 @@
 
 # property -> contract modules that carry obligations for it
 PROPERTY_MODULES = {
-    "C16": ["selection", "choicemap", "core_gfi"],
-    "C01": ["core_gfi", "choicemap"],
-    "C02": ["core_gfi"],
-    "C03": ["core_gfi", "choicemap"],
-    "C04": ["core_gfi", "selection"],
-    "C05": ["core_gfi"],
+    "C16": ["selection", "choicemap", "core_gfi", "combinators"],
+    "C08": ["combinators"],
+    "C01": ["core_gfi", "combinators", "lemmas", "choicemap"],
+    "C02": ["core_gfi", "combinators", "lemmas"],
+    "C03": ["core_gfi", "combinators", "lemmas", "choicemap"],
+    "C04": ["core_gfi", "combinators", "selection"],
+    "C05": ["core_gfi", "combinators", "lemmas"],
 }
 
 A_REAL = "A-REAL: machine floats are treated as mathematical reals and ints as mathematical ints (no rounding, overflow, nan/inf)"
